@@ -10,6 +10,30 @@ def is_container(head):
     return head[:2] in (b"\x1f\x8b", b"PK", b"BZ", b"\x1f\x9d", b"\xfd7") or head[:4] in (b"PP20", b"XPKF", b"ziRC", b"Rar!") or b"-lh" in head[:8] or head[:1] == b"\x1a" \
         or head[:8] == b"Archive\x00" or head[:3] in (b"LZX", b"MO3", b"S40") or b"SQSH" in head[:16] or head[:4] == b"MMCM" or head[:4] == b"ICE!" or head[:4] in (b"PX20", b"CrM!", b"CrM2", b"Crm!", b"Crm2")
 
+def wrap_umx(mod, typname):
+    """an Unreal package (version 61, one name, one export) around a module: the UMX loader hands the object to the MOD / S3M / XM / IT
+    loader named by the type, and its test function reads the wrapped module's title itself"""
+    import struct
+    def fci(v):
+        out = bytearray([v & 0x3f])
+        if v < 0x40: return bytes(out)
+        out[0] |= 0x40; out.append((v >> 6) & 0x7f)
+        if v < (1 << 13): return bytes(out)
+        out[1] |= 0x80; out.append((v >> 13) & 0x7f)
+        if v < (1 << 20): return bytes(out)
+        out[2] |= 0x80; out.append((v >> 20) & 0x7f)
+        if v < (1 << 27): return bytes(out)
+        out[3] |= 0x80; out.append((v >> 27) & 0x3f)
+        return bytes(out)
+    name_ofs, import_ofs, export_ofs, obj_ofs = 64, 76, 80, 128
+    obj = fci(0) + fci(0) + fci(len(mod))
+    b = bytearray(obj_ofs) + obj + mod + bytes(64)
+    struct.pack_into("<IIIIIIIII", b, 0, 0x9e2a83c1, 61, 0, 1, name_ofs, 1, export_ofs, 0, import_ofs)
+    b[name_ofs:name_ofs + len(typname)] = typname.encode()
+    exp = fci(0) + fci(0) + bytes(4) + fci(0) + bytes(4) + fci(len(mod) + len(obj)) + fci(obj_ofs)
+    b[export_ofs:export_ofs + len(exp)] = exp
+    return bytes(b)
+
 def main():
     tier = sys.argv[1] if len(sys.argv) > 1 else "quick"
     replay = sys.argv[sys.argv.index("--replay") + 1] if "--replay" in sys.argv else None
@@ -119,6 +143,16 @@ def main():
                     if n < len(data):
                         p = os.path.join(tmpd, "h%06d" % k); k += 1
                         open(p, "wb").write(data[:n]); jobs.append((p, "mutant-headcut%d:%s" % (n, os.path.basename(f))))
+            # Unreal packages around modules whose titles fill their field: the title the test reports must be the loaded one
+            for ext, typ, tofs, tlen in ((".s3m", "s3m", 0, 28), (".it", "it", 4, 26), (".xm", "xm", 17, 20), (".mod", "mod", 0, 20)):
+                cand = [f for f in V.corpus_files() if f.lower().endswith(ext) and os.path.getsize(f) < 200000]
+                for f in cand[:2]:
+                    data = bytearray(open(f, "rb").read())
+                    for title in (b"Twenty-six letters in here", b"short", b"x" * tlen):
+                        d2 = bytearray(data); d2[tofs:tofs + tlen] = title[:tlen].ljust(tlen, b"\0" if typ != "xm" else b" ")
+                        for blob, lab in ((bytes(d2), "title-bare"), (wrap_umx(bytes(d2), typ), "title-umx")):
+                            p = os.path.join(tmpd, "u%06d" % k); k += 1
+                            open(p, "wb").write(blob); jobs.append((p, "%s-%s:%s" % (lab, typ, os.path.basename(f))))
             for n in (1, 2, 3, 4, 16, 1084):              # tiny and all-zero inputs
                 p = os.path.join(tmpd, "z%d" % n); open(p, "wb").write(bytes(n)); jobs.append((p, "zeros-%d" % n))
         inp = "".join("%s %s\n" % (e, p) for p, _ in jobs for e in ("LP", "LM", "LF", "LC", "TP", "TM", "TF", "TC"))
